@@ -114,6 +114,9 @@ def run(repo, rep, tier):
     L.borrow(repo, rep, "R11.5", "C04", _c04.tales_details,
              ("no-input-guard", "stripped-both-sides", "slice-one-group", "tales-space", "prefix-width"), minimum=2)
     L.option_defaults_rule(repo, rep, "R11.5", ("restricted_namespace",))
+    # the duplicate check of an i18n:name consults the translation it is in
+    L.innermost_rule(repo, rep, "R11.5", ("chameleon.compiler.Compiler",),
+                     only=("_translations",))
     L.state_rule(repo, rep)
 
 
@@ -321,6 +324,21 @@ def _algebra(repo, rep):
                   "takes, with the same defaults" % (name, name),
                   construct="str-signature:" + name, where=L.where(m),
                   detail="Token: %s; str: %s" % (have, want))
+    for name, m in sorted(ci.methods.items()):
+        if name.startswith("__") or not hasattr(str, name):
+            continue
+        dl = [c for c in ast.walk(m.node) if isinstance(c, ast.Call)
+              and isinstance(c.func, ast.Attribute)
+              and src(c.func.value) == "str" and c.args
+              and src(c.args[0]) == "self"]
+        # (locating the pieces with str.find / str.index is part of it)
+        dl = [c for c in dl if c.func.attr not in ("find", "index")]
+        if dl:
+            rep.check(all(c.func.attr == name for c in dl), "R11.1",
+                      m.qualname, "Token.%s computes its pieces with "
+                      "str.%s" % (name, name),
+                      construct="delegates:" + name, where=L.where(m),
+                      detail=str([src(c.func) for c in dl]))
     rep.require_min("R11.1", 8, "Token methods building derived tokens")
     # the slice start of __getitem__: negative starts are not position
     # faithful -> callers on error paths must not use them (checked in R11.2)
